@@ -273,8 +273,15 @@ def whyStm (P : Prog) (Γ : Env) (c : CallStm) (sh : Option SplitShape) : List S
       (if bs.all (fun ib => match c.callee.params.lookup ib.1 with
           | some t => bindHoleFreeT Γ t ib.2
           | none => true) then [] else ["hole"])) ++
+  (match usingDisabled c.mods.usings with
+    | some e => if e.wf then [] else ["expwf"]
+    | none => []) ++
   (match sh with
-    | some (.map _) => if isDirMap (Ty.struct c.callee.name c.callee.outs) then ["dirmap"] else []
+    | some (.map ks) =>
+      if !isDirMap (Ty.struct c.callee.name c.callee.outs) then []
+      else (match allBinds Γ c.callee.params c.binds c.wild, ks with
+        | some bs, some k => if staticLegalKeys k.length c.callee.params bs then [] else ["dirmap"]
+        | _, _ => ["dirmap"])
     | _ => []) ++
   (if c.callee.isStage || (match P.find c.callee.name with
       | some q => calleeEq q.callee c.callee
@@ -442,9 +449,52 @@ def handle (op : String) (args : List String) : Option String :=
         let P : Prog := { pipes := pipes }
         let accepted := pipes.all validPipelineU && validTop top
         pure (" ".intercalate ["accepted=" ++ boolStr accepted, "progOk=" ++ boolStr (progOk P top),
-          "fits=" ++ boolStr (fits P fuel top.callee)] ++
+          "fits=" ++ boolStr (fits P fuel top.callee), "nodisabled=" ++ boolStr (noDisabled P top)] ++
           " pipes=" ++ ",".intercalate (pipes.map fun q => boolStr (okPipe P q)) ++
-          " why=" ++ ",".intercalate ((pipes.flatMap (whyPipe P)).eraseDups))
+          " why=" ++ ",".intercalate (((pipes.flatMap (whyPipe P)) ++
+            (if pipes.all (fun q => umapPipe P (q.name == top.callee.name) q) then [] else ["umapref"])).eraseDups))
+      | _ => none
+    | [] => none
+  | "evalT", [env, cid, v, t, e] => do
+    -- Martian.Typing.evalT: the expression `e` resolved for a parameter of type `t` in the environment `env`,
+    -- the store holding the value `v` for the call `cid` (what Fork.resolveRef → LazyArgumentMap.Path does)
+    let Γ ← whole parseEnv env
+    let cid ← bytesOfHex cid
+    let v ← whole parseJ v
+    let t ← whole parseTy t
+    let e ← whole parseExp e
+    match evalT Γ { self := [], calls := [(cid, v)] } t (bindExp Γ t e) with
+    | some w => pure (showJ w)
+    | none => pure "none"
+  | "deliveredT", [env, cid, v, t, b] => do
+    -- Martian.Typing.deliveredT: the values a binding (plain or split) delivers to the forks
+    let Γ ← whole parseEnv env
+    let cid ← bytesOfHex cid
+    let v ← whole parseJ v
+    let t ← whole parseTy t
+    let b ← whole parseBind b
+    match deliveredT Γ { self := [], calls := [(cid, v)] } t b with
+    | some ws => pure (" ".intercalate (s!"a {ws.length}" :: ws.map showJ))
+    | none => pure "none"
+  | "progrun", [arg] => do
+    -- the checked run of one program (Martian.Typing.runProgram) with stages that return null outputs:
+    -- what remains visible is which calls were disabled (null) and the fork structure of the others
+    let toks := arg.splitOn " "
+    match toks with
+    | n :: r => do
+      let n ← n.toNat?
+      let (pipes, r) ← parsePipes n r
+      let (top, r) ← parseStm r
+      match r with
+      | [fuel] => do
+        let fuel ← fuel.toNat?
+        match runProgram { pipes := pipes } (fun _ _ => .null) fuel top with
+        | .ok s =>
+          (match s.2.calls.lookup top.id with
+            | some v => pure ("run " ++ showJ v)
+            | none => pure "run none")
+        | .nullDisabled => pure "run nullDisabled"
+        | .fail => pure "run none"
       | _ => none
     | [] => none
   | "hyp", [env, t, e] => do
